@@ -398,3 +398,114 @@ SUBCHECKS = [
     Sub('site_enum', None, run_site, quick=1, thorough=1, enumerate_fn=enum_sites),
     Sub('grouped_enum', None, run_grouped, quick=1, thorough=1, enumerate_fn=enum_grouped),
 ]
+
+
+# ------------------------------------------------------------------------------------------------
+# many-body: Jordan-Wigner strings on heterogeneous chains, with offsets
+
+from hypothesis import strategies as st  # noqa: E402
+from vf import mps as M  # noqa: E402
+
+FERM_CFGS = [i for i, c in enumerate(M.SITE_CFGS) if c[0] in M.FERMIONIC]
+BOSE_CFGS = [i for i, c in enumerate(M.SITE_CFGS) if c[0] not in M.FERMIONIC and M.dim_of(c) <= 3]
+
+
+@st.composite
+def manybody_specs(draw, tier):
+    a = draw(st.sampled_from(FERM_CFGS))
+    b = draw(st.sampled_from(BOSE_CFGS + FERM_CFGS))
+    pat = draw(st.sampled_from([[0, 1], [1, 0], [0, 0, 1], [0, 1, 1], [0]]))
+    L = draw(st.integers(3, 6))
+    cfg = [[a, b][pat[k % len(pat)]] for k in range(L)]
+    dims = [M.dim_of(M.SITE_CFGS[i]) for i in cfg]
+    while int(np.prod(dims)) > 2 ** 9 and len(cfg) > 3:
+        cfg.pop()
+        dims.pop()
+    return {'chain': {'cfg': cfg}, 'seed': draw(st.integers(0, 2 ** 20)), 'which': draw(st.sampled_from(['term_corr_right', 'term_corr_left', 'apply_local_term', 'expval_term', 'term_list_corr'])),
+            'offset': draw(st.integers(0, 4))}
+
+
+def run_manybody(spec):
+    from tenpy.networks.mps import MPS
+    rng = np.random.default_rng(spec['seed'])
+    with warnings.catch_warnings():
+        warnings.simplefilter('ignore')
+        sites = M.build_sites(spec['chain'])
+        cfg = spec['chain']['cfg']
+        L = len(sites)
+        vec, q = M.random_state(sites, spec['seed'])
+        psi = MPS.from_full(sites, M.to_npc_state(sites, vec, q), form='B', unit_cell_width=L)
+        v = vec.reshape(-1)
+        which = spec['which']
+        tags = dict(which=which, hetero=len(set(cfg)) > 1)
+        ferm_sites = [i for i in range(L) if M.fermionic_opnames(sites[i])]
+        if len(ferm_sites) < 2:
+            raise Skip()
+
+        def fpair():
+            """(op_i, i), (hc op, j) on two different fermionic sites of the same kind"""
+            for _ in range(30):
+                i, j = rng.choice(ferm_sites, size=2, replace=False)
+                if cfg[i] != cfg[j]:
+                    continue
+                names = M.fermionic_opnames(sites[i])
+                a = names[int(rng.integers(0, len(names)))]
+                return (a, int(i)), (sites[i].get_hc_op_name(a), int(j))
+            raise Skip()
+        (a, i), (b, j) = fpair()
+        nferm_between = sum(1 for k in range(min(i, j) + 1, max(i, j)) if k in ferm_sites)
+        classes = ['which:' + which, 'hetero' if tags['hetero'] else 'homogeneous', 'fermions-between:%d' % min(nferm_between, 2)]
+
+        def ev(term):
+            return np.vdot(v, M.jw_term(sites, term) @ v)
+        if which == 'expval_term':
+            term = [(a, i), (b, j)]
+            if rng.integers(0, 2):
+                k = int(rng.integers(0, L))
+                neutral = [n for n in sorted(sites[k].opnames) if not sites[k].op_needs_JW(n) and not n.startswith('JW') and not np.any(sites[k].get_op(n).qtotal)]
+                term.insert(int(rng.integers(0, 3)), (neutral[int(rng.integers(0, len(neutral)))], k))
+            got = psi.expectation_value_term(term)
+            require(abs(got - ev(term)) <= 1e-9, 'expectation_value_term', 'term %r: %r vs reference %r' % (term, got, ev(term)), **tags)
+        elif which in ('term_corr_right', 'term_corr_left', 'term_list_corr'):
+            lo, hi = (i, a), (j, b)
+            if i > j:
+                lo, hi = (j, b), (i, a)
+            # term_L located at `lo` through the offset i_L, term_R at `hi` through j_R; the order of the product is term_L term_R
+            off = min(spec['offset'], lo[0])
+            term_L = [(lo[1], lo[0] - off)]
+            jR = hi[0]
+            term_R = [(hi[1], 0)]
+            ref = ev([(lo[1], lo[0]), (hi[1], hi[0])])
+            if which == 'term_corr_right':
+                got = psi.term_correlation_function_right(term_L, term_R, i_L=off, j_R=[jR])[0]
+            elif which == 'term_corr_left':
+                # fixed right term, moving left term
+                offR = min(spec['offset'], hi[0])
+                got = psi.term_correlation_function_left([(lo[1], 0)], [(hi[1], hi[0] - offR)], i_L=[lo[0]], j_R=offR)[0]
+            else:
+                from tenpy.networks.terms import TermList
+                tl_L = TermList([term_L], [1.5])
+                tl_R = TermList([term_R], [2.0])
+                got = psi.term_list_correlation_function_right(tl_L, tl_R, i_L=off, j_R=[jR])[0] / 3.0
+            require(abs(got - ref) <= 1e-9, 'term-correlation-function', '%s: ops %r at %r (offset %d): %r vs reference %r' % (which, (lo[1], hi[1]), (lo[0], hi[0]), off, got, ref),
+                    offset=off > 0, **tags)
+            if off > 0:
+                classes.append('offset')
+        else:
+            term = [(a, i), (b, j)]
+            off = min(spec['offset'], min(i, j))
+            shifted = [(n, k - off) for n, k in term]
+            ref = M.jw_term(sites, term) @ v
+            if np.linalg.norm(ref) < 1e-6:
+                raise Skip()  # the term annihilates the state (documented ValueError)
+            phi = psi.copy()
+            phi.apply_local_term(shifted, i_offset=off, canonicalize=True, renormalize=False)
+            res = M.mps_to_dense(phi).reshape(-1)
+            require(np.linalg.norm(res - ref) <= 1e-9 * max(1., np.linalg.norm(ref)), 'apply_local_term', 'term %r offset %d: |result - reference| = %r' % (term, off, np.linalg.norm(res - ref)),
+                    offset=off > 0, **tags)
+            if off > 0:
+                classes.append('offset')
+    return {'nontrivial': True, 'classes': classes}
+
+
+SUBCHECKS.append(Sub('manybody', manybody_specs, run_manybody, quick=1200, thorough=60000))
